@@ -2542,6 +2542,34 @@ func ruleFrameClaimAtomic(c *Ctx, rule string, vf *vmFacts) {
 			if bad != nil {
 				where = l.Pos(bad.Pos())
 			}
+			// nor can it panic on the value stack any more: no store into the stack
+			// with a computed index is reachable from the increment (an exhausted
+			// value stack is a recovered Go panic, delivered to the script's catch)
+			fStack := vf.field("stack")
+			var stackStore ssa.Instruction
+			if fStack >= 0 {
+				stackStore, _ = mustPassBefore(ins, func(ssa.Instruction) bool { return false }, func(x ssa.Instruction) bool {
+					s2, ok := x.(*ssa.Store)
+					if !ok {
+						return false
+					}
+					ia, ok := s2.Addr.(*ssa.IndexAddr)
+					if !ok {
+						return false
+					}
+					if _, isConst := ia.Index.(*ssa.Const); isConst {
+						return false
+					}
+					fa2, ok := vf.isVMFieldAddr(ia.X)
+					return ok && fa2.Field == fStack
+				})
+			}
+			whereS := ""
+			if stackStore != nil {
+				whereS = l.Pos(stackStore.Pos())
+			}
+			c.Check(rule, fnName(fn)+" | frame index advanced | value stack", l.Pos(st.Pos()), stackStore == nil, "no store into the value stack with a computed index after the increment",
+				"the routine writes the value stack (at "+whereS+") after it advanced the frame index: when the stack is exhausted that store is a Go panic, recovered and delivered to the calling script's catch with the frame index one too high - the script that handled the overflow then returns into a cleared frame")
 			c.Check(rule, fnName(fn)+" | frame index advanced", l.Pos(st.Pos()), ok2, "no error return is reachable after the increment",
 				"the routine can return an error (at "+where+") after it advanced the frame index: a frame overflow caught by the calling script leaves the index one too high, and the catching function's return takes a cleared frame for its parent (nil dereference without recovery; a second, spurious catch with it)")
 		})
@@ -2724,6 +2752,27 @@ func ruleCallbackErr(c *Ctx, rule string) {
 			key := fnName(fn) + " | error of the script function recorded by the callback"
 			c.Check(rule, key+" | sticky", l.Pos(cl.Pos()), sticky, "Invoke is reached only while the recorded error is nil",
 				"the callback calls the script function again after an error was recorded and stores the new (nil) error over it: an error thrown by the script function for one element is lost when a later element succeeds (IndexFunc returns an index and no error)")
+			// (every element): apart from that test nothing decides whether the script
+			// function is called - no cache, no shortcut for elements "seen before":
+			// the function may read and update captured variables and globals
+			var other []string
+			for _, g := range guardEdges(cl.Block()) {
+				isErrTest := false
+				if bo, ok := g.If.Cond.(*ssa.BinOp); ok {
+					for _, pr := range [][2]ssa.Value{{bo.X, bo.Y}, {bo.Y, bo.X}} {
+						k, isNil := pr[1].(*ssa.Const)
+						ld, isLoad := pr[0].(*ssa.UnOp)
+						if isNil && k.IsNil() && isLoad && ld.X == ssa.Value(cell) {
+							isErrTest = true
+						}
+					}
+				}
+				if !isErrTest {
+					other = append(other, l.Pos(g.If.Pos()))
+				}
+			}
+			c.Check(rule, key+" | every element", l.Pos(cl.Pos()), len(other) == 0, "the script function is called for every element while no error is recorded",
+				"whether the script function is called depends on another condition ("+strings.Join(other, ", ")+") than the recorded error - a cache keyed by the element, say: a function whose result depends on captured variables or globals is called fewer times than the same loop in the script would call it, with other results")
 			// (per-call): the cell bound to the free variable is an Alloc of the direct parent
 			idx := -1
 			for k, q := range fn.FreeVars {
@@ -3034,4 +3083,55 @@ func ruleLookupEveryScope(c *Ctx, rule string) {
 	}
 	c.Check(rule, "SymbolTable.findByName | step to the next table", where, ok, "the table in the `parent` field: every enclosing scope is visited",
 		"the lookup steps to another table than the direct parent: enclosing block tables or the enclosing function's table are skipped, a parameter / local / loop variable that hides an outer literal constant is not seen, and the optimizer substitutes the constant for it (`const x = 1; f := func(x) { return x + 1 }; f(5)` is 2 optimized)")
+}
+
+// ---- C17/strconv-err (also C19) ---------------------------------------------------------------------------------------------------
+// Syntax is not all that can be wrong with a JSON number: 1e400 passes the
+// validating scanner and is out of range for a float64.  Every call of a
+// strconv parsing function in the json package uses its error result (it is
+// returned, tested or stored): a discarded error turns an out-of-range number
+// into +Inf without a word, where encoding/json reports it, and the value then
+// cannot be marshalled again.
+func ruleStrconvErr(c *Ctx, rule string) {
+	l := c.L
+	n := 0
+	for _, fn := range l.RepoFuncs(func(pp string) bool { return pp == jsonPath }) {
+		eachInstr(fn, func(ins ssa.Instruction) {
+			cl, ok := ins.(*ssa.Call)
+			if !ok {
+				return
+			}
+			f := cl.Call.StaticCallee()
+			if f == nil || f.Pkg == nil || f.Pkg.Pkg.Path() != "strconv" || !strings.HasPrefix(f.Name(), "Parse") {
+				return
+			}
+			res := f.Signature.Results()
+			if res.Len() != 2 || !isErrorType(res.At(1).Type()) {
+				return
+			}
+			n++
+			used := false
+			if cl.Referrers() != nil {
+				for _, r := range *cl.Referrers() {
+					if ex, ok := r.(*ssa.Extract); ok && ex.Index == 1 && ex.Referrers() != nil {
+						for _, rr := range *ex.Referrers() {
+							if _, isDbg := rr.(*ssa.DebugRef); !isDbg {
+								used = true
+							}
+						}
+					}
+				}
+			}
+			key := fmt.Sprintf("%s | strconv.%s", fnName(fn), f.Name())
+			if k := countKey(key); k > 1 {
+				key += fmt.Sprintf(" #%d", k)
+			}
+			c.Check(rule, key, l.Pos(cl.Pos()), used, "the error result is used",
+				"the error of strconv."+f.Name()+" is discarded: a number that is syntactically valid but out of range (1e400) is decoded as +Inf without an error where encoding/json refuses it, and the decoded value cannot be marshalled again")
+		})
+	}
+	resetKeyCount()
+	if n == 0 {
+		c.Und(rule, "strconv parsing calls of the json package", "-", "none found")
+	}
 }
